@@ -76,6 +76,10 @@ pub fn lark_items() -> Vec<Item> {
         lark("regex-class", "start: /[a-c][^a]?/ /\\d{1,2}/", &["ab12", "a1"]),
         lark("empty-alt", "start: (\"a\" | ) (\"b\" | ) \"c\"", &["abc", "c"]),
         lark("group-rep", "start: (\"a\" \"b\"?){1,3} \"c\"", &["abac", "aaac"]),
+        lark("toolcall", "start: ( f_foo | f_bar )* f_end\nf_end: TEXT\nTEXT: /(.|\\n)*/\nf_foo_hd[lazy]: TEXT \"<fn\"\nf_foo: f_foo_hd \"=foo>\" /[a-c]+/ \"</fn>\"\nf_bar_hd[lazy]: TEXT \"<fn\"\nf_bar: f_bar_hd \"=bar>\" /[0-9]+/ \"</fn>\"", &["ab<fn=foo>abc</fn>x", "x<fn=bar>12</fn>"]),
+        lark("lazy-greedy", "start: hd \"=x\" | TEXT\nTEXT: /[a-z<]*/\nhd[lazy]: TEXT \"<f\"", &["ab<f=x", "ab<fx"]),
+        lark("brave", "start: normal | brave\nnormal: /[a-z ]*/\nbrave: \"call(q=\" JSON_STRING \")\"\nJSON_CHAR: /(\\\\([\\\"\\\\\\/bfnrt]|u[a-fA-F0-9]{4})|[^\\\"\\\\\\x00-\\x1F\\x7F])/\nJSON_STRING: \"\\\"\" JSON_CHAR* \"\\\"\"", &["call(q=\"ab\\n\")", "hello a"]),
+        lark("think", "start: /(.|\\n)*/ \"</t>\" addr\naddr: %json {\"type\":\"object\",\"properties\":{\"zip\":{\"type\":\"number\"}},\"required\":[\"zip\"],\"additionalProperties\":false}", &["hm\n</t>{\"zip\":12}"]),
         lark("mutual", "start: a\na: \"x\" b | \"y\"\nb: \"z\" a | \"w\"", &["xzxzy", "xw"]),
     ]
 }
